@@ -1,6 +1,6 @@
 // C15.b: turbo-mesh indexing (src/Mesh/MeshETurbo.cpp, MSS corner table of src/Mesh/Delaunay.cpp,
 // Grid::rankToIndice / indiceToRank of src/Basic/Grid.cpp).  Regular grid with VF_ND dimensions and
-// nx[d] in [2, VF_NX] nodes per direction (symbolic), no mask (identity indirections), with and
+// nx[d] in [2, VF_NX] nodes per direction (symbolic; exactly VF_NX with VF_NXFIXED), no mask (identity indirections), with and
 // without polarisation (diamond construction, 2-D).
 //   k_turbo_apex : for every mesh rank: _getGridFromMesh gives (lower-corner node of the cell, case)
 //                  from which the rank is recovered (rank <-> (cell, case) is a bijection);
@@ -46,7 +46,11 @@ static MeshETurbo* make_mesh()
   new (&m->_grid._nx) VectorInt(VF_ND);
   for (int d = 0; d < VF_ND; d++)
   {
-    nx[d]          = vf_range(2, VF_NX);
+#ifdef VF_NXFIXED
+    nx[d] = VF_NX; // exactly VF_NX nodes per direction (3-D: symbolic node counts are too hard for the solver)
+#else
+    nx[d] = vf_range(2, VF_NX);
+#endif
     m->_grid._nx[d] = nx[d];
   }
   m->_isPolarized = vf_nondet_bool();
